@@ -78,6 +78,60 @@ def rule_single_exit(ctx):
     r.check(not lib_exits, "lib", "exit-in-lib", "no process::exit in the library", loc=(lib_exits[0][1].loc() if lib_exits else None))
 
 
+def rule_usage_errors(ctx):
+    """C05: a command line clap rejects is an error (non-zero exit), only a help / version request returns Ok"""
+    prog = ctx.prog
+    from .satlayer import place_ty
+
+    r = ctx.rule(
+        "usage-errors-are-errors",
+        "in the function that parses the command line with clap's `get_matches_from_safe`, the Err arm returns Ok(..) only when the error kind "
+        "is HelpDisplayed / VersionDisplayed: every other rejected command line (missing or unknown argument, bad value ..) reaches the caller as Err "
+        "and so the non-zero exit",
+    )
+    n = 0
+    for t in prog.bin_targets():
+        for b in prog.bodies_in(t):
+            ps = [s for s in b.calls() if callee_matches(callee_of(s), r"^clap::app::App::get_matches_from_safe(_borrow)?$")]
+            if not ps:
+                continue
+            n += 1
+            res = ps[0].node["dst"]["l"]
+            ek = None
+            for path, e in prog.ext_enums.items():
+                if path.endswith("clap::errors::ErrorKind"):
+                    ek = {str(v["discr"]): v["name"] for v in e["variants"]}
+            oks = []
+            for s in b.sites():
+                nd = s.node
+                if s.si is not None and nd["k"] == "assign" and nd["dst"]["l"] == 0 and nd["rv"]["k"] == "aggregate" and nd["rv"]["agg"].get("variant") == "Ok":
+                    conds = conditions(b, s.bb)
+                    on_err = any(c.is_discr and c.place["l"] == res and not c.place["p"] and not c.negated and c.values == ["1"] for c in conds)
+                    if on_err:
+                        oks.append((s, conds))
+            anchor = "%s|%s" % (t, b.path)
+            if not oks:
+                r.ok(anchor, "no Ok(..) is returned on the Err arm of the clap result", b.loc())
+                continue
+            for s, conds in oks:
+                kinds = None
+                for c in conds:
+                    if c.is_discr and c.place["l"] == res and c.place["p"] and "ErrorKind" in place_ty(b, c.place):
+                        vs = set(c.values)
+                        if c.negated:
+                            vs = (set(ek) - vs) if ek else {"?"}
+                        kinds = vs if kinds is None else kinds & vs
+                if kinds is None:
+                    r.violation(anchor, "ok-on-any-clap-error", "Ok(..) is returned on the Err arm of the clap result without a test of the error kind: a rejected command line exits 0", s.loc())
+                    continue
+                if ek is None:
+                    r.ok(anchor, "Ok(..) under a test of the clap error kind (variant names not available: NOT decided which)", s.loc())
+                    continue
+                names = sorted(ek.get(v, v) for v in kinds)
+                r.check(set(names) <= {"HelpDisplayed", "VersionDisplayed"}, anchor, "ok-on:%s" % names, "Ok(..) on a clap error only for %s" % names, "a command line rejected by clap with %s returns Ok: usage errors exit with status 0" % [x for x in names if x not in ("HelpDisplayed", "VersionDisplayed")], s.loc())
+    r.floor(n, 2, "functions parsing the command line with get_matches_from_safe")
+
+
 def dispatch_functions(prog, target):
     """functions of the bin that call a solver-trait method through a trait object"""
     out = []
